@@ -12,17 +12,32 @@ use crate::tabledrv::{TableDrv, TW_LEAKY};
 use crate::util::{Json, Rng};
 use crate::{for_elem, for_pair};
 
+/// The interpreter copies a 4200-byte element byte by byte: in the Miri lane the two largest element types are
+/// replaced by the 200-byte one (they exist for size thresholds, which the other lanes cover).
+fn lane_elem(c: &Ctx, name: &'static str) -> &'static str {
+    if !c.is_miri() {
+        return name;
+    }
+    match name {
+        "L600" | "L4K" => "L200",
+        "L600xB1" => "L200xB1",
+        "P8xL600" => "P8xT24",
+        "B1xL4K" => "B1xL200",
+        other => other,
+    }
+}
+
 pub fn run(c: &mut Ctx) {
     c.run_scenarios(|c, idx, rng| {
         let which = crate::util::mix(idx) % 7;
         if which == 6 {
-            let e = ELEMS[((crate::util::mix(idx) / 7) % ELEMS.len() as u64) as usize];
+            let e = lane_elem(c, ELEMS[((crate::util::mix(idx) / 7) % ELEMS.len() as u64) as usize]);
             for_elem!(e, set_scenario(c, idx, rng));
         } else if which % 3 < 2 {
-            let pair = PAIRS[((crate::util::mix(idx) / 7) % PAIRS.len() as u64) as usize];
+            let pair = lane_elem(c, PAIRS[((crate::util::mix(idx) / 7) % PAIRS.len() as u64) as usize]);
             for_pair!(pair, map_scenario(c, idx, rng));
         } else {
-            let e = ELEMS[((crate::util::mix(idx) / 7) % ELEMS.len() as u64) as usize];
+            let e = lane_elem(c, ELEMS[((crate::util::mix(idx) / 7) % ELEMS.len() as u64) as usize]);
             for_elem!(e, table_scenario(c, idx, rng));
         }
     });
